@@ -49,6 +49,7 @@ type checkCfg struct {
 	Harnesses   []harnessCfg `json:"harnesses"`
 	Assumptions []string     `json:"assumptions"`
 	Solver      string       `json:"solver"`
+	Solver2     string       `json:"solver2"` // thorough tier: second solver that re-decides every obligation
 	Outside     []string     `json:"outside"`
 }
 
@@ -85,6 +86,7 @@ func main() {
 		workers   = flag.Int("workers", 16, "parallel workers")
 		seed      = flag.Int("seed", 0, "seed")
 		solverK   = flag.String("solver", "", "solver kind (default: from check config, else z3)")
+		solver2Flag = flag.String("solver2", "", "second solver re-deciding every obligation")
 		only      = flag.String("only", "", "only instances whose params match k=v,k=v")
 		verbose   = flag.Bool("v", false, "verbose")
 		noReplay  = flag.Bool("noreplay", false, "skip native replay")
@@ -115,6 +117,12 @@ func main() {
 	}
 	if *solverK == "" {
 		*solverK = "z3"
+	}
+	if *tier == "thorough" {
+		solver2Kind = cfg.Solver2
+	}
+	if *solver2Flag != "" {
+		solver2Kind = *solver2Flag
 	}
 	solverName = map[string]string{"z3": "z3 4.8.12", "z3-new": "z3 5.1.0 (z3-new)", "cvc5": "cvc5 1.0"}[*solverK]
 	known := map[string]bool{}
@@ -471,6 +479,11 @@ func runInstance(prog *ssa.Program, inst instance, known map[string]bool, solver
 		fatal(err)
 	}
 	defer solver.Close()
+	if solver2Kind != "" {
+		if m, err := sym.NewSolver(solver2Kind, timeout, tc, nil); err == nil {
+			solver.Mirror = m
+		}
+	}
 	solver.FeasTimeoutMs = inst.tier.FeasTimeoutMs
 	if solver.FeasTimeoutMs == 0 {
 		solver.FeasTimeoutMs = 2000
@@ -497,6 +510,12 @@ func runInstance(prog *ssa.Program, inst instance, known map[string]bool, solver
 		ex.Cfg.Deadline = time.Now().Add(time.Duration(inst.tier.TimeBudgetS) * time.Second)
 	}
 	ex.Explore(inst.fn)
+	mirrorMu.Lock()
+	mirrorTotals.Checked += solver.MirrorStats.Checked
+	mirrorTotals.Agree += solver.MirrorStats.Agree
+	mirrorTotals.Disagree += solver.MirrorStats.Disagree
+	mirrorTotals.Unknown += solver.MirrorStats.Unknown
+	mirrorMu.Unlock()
 	return instResult{inst: inst, stats: ex.Stats, solver: solver.Stats, funcs: in.SortedFuncs(), stubs: in.SortedStubs()}
 }
 
@@ -914,7 +933,10 @@ func fileHash(p string) string {
 }
 
 var solverName = "z3"
+var solver2Kind string
 var globalSiteNames []string
+var mirrorMu sync.Mutex
+var mirrorTotals struct{ Checked, Agree, Disagree, Unknown int }
 
 func writeEvidence(verif string, cfg *checkCfg, tier string, seed int, a *aggT, wall time.Duration, confirmed int, repo string) {
 	var funcs []string
@@ -995,6 +1017,7 @@ func writeEvidence(verif string, cfg *checkCfg, tier string, seed int, a *aggT, 
 			"path_witnesses_agreeing":       witnessOK,
 			"repo_tree_hash":                repoHash(repo, funcs),
 			"map_range_sites":               siteReport(a),
+			"second_solver":                 map[string]interface{}{"name": solver2Kind, "obligations_rechecked": mirrorTotals.Checked, "agree": mirrorTotals.Agree, "disagree": mirrorTotals.Disagree, "undecided": mirrorTotals.Unknown},
 		},
 	}
 	os.MkdirAll(filepath.Join(verif, "evidence"), 0o755)
